@@ -711,7 +711,11 @@ func (g *progen) stmt(sc *pscope, depth int, ind string) string {
 		if g.rng.Intn(4) == 0 {
 			s += ind + "} catch {" + nl + g.block(sc, 1, depth-1, ind+"  ")
 		} else {
-			s += ind + "} catch (" + e + ") {" + nl + ind + "  $(" + g.pid() + ", " + e + ");" + nl + g.block(inner, 1, depth-1, ind+"  ")
+			// the caught value is probed as it is; before the generated body can use it in an expression an engine
+			// error is replaced by its name, because its message quotes source text (identifier names), which
+			// the property excludes from the comparison and which minified names legitimately change
+			s += ind + "} catch (" + e + ") {" + nl + ind + "  $(" + g.pid() + ", " + e + ");" + nl +
+				ind + "  if (" + e + " instanceof Error) " + e + " = " + e + ".name;" + nl + g.block(inner, 1, depth-1, ind+"  ")
 		}
 		if g.rng.Bool() {
 			s += ind + "} finally {" + nl + g.block(sc, 1, depth-1, ind+"  ")
